@@ -1,2 +1,5 @@
 pub mod c01;
 pub mod c02;
+pub mod c04;
+pub mod c05;
+pub mod c07;
